@@ -8,7 +8,7 @@ sys.path.insert(0, VERIF)
 
 MODULES = {
     "C12": "checks.trees", "C13": "checks.trees", "C14": "checks.trees",
-    "C15": "checks.hashlist", "C08": "checks.shmbuf", "C01": "checks.c01", "C04": "checks.c04", "C02": "checks.c02", "C03": "checks.c03", "C05": "checks.c05", "C11": "checks.hashes", "C17": "checks.addrs", "C16": "checks.ini", "C06": "checks.ipc", "C18": "checks.allocfail", "C19": "checks.eintr", "C20": "checks.resources", "C09": "checks.c09", "C07": "checks.ipc",
+    "C15": "checks.hashlist", "C08": "checks.shmbuf", "C01": "checks.c01", "C04": "checks.c04", "C02": "checks.c02", "C03": "checks.c03", "C05": "checks.c05", "C11": "checks.hashes", "C17": "checks.addrs", "C16": "checks.ini", "C06": "checks.ipc", "C18": "checks.allocfail", "C19": "checks.eintr", "C20": "checks.resources", "C09": "checks.c09", "C10": "checks.c10", "C07": "checks.ipc",
 }
 
 
